@@ -30,7 +30,10 @@ EXPL = (
     "at an address that depends on ES and BP (not DS), the AH=0Ah buffer on DS and DX; AH=0Ah of int 10h repeats CX times, "
     "AH=13h pads DL times and copies CX bytes (loop bounds' origins). R6 the interrupt numbers the interpreter can return "
     "(0 on divide error, 3, 10h, 21h) all have an arm in the driver and the assembler accepts exactly {3,10h,21h}. "
-    "NOT decided: the text written to stdout."
+    "R7 what is written: every machine value handed to the formatter by the services is `(memory byte | byte register) "
+    "as char`, i.e. one character per byte with the byte's code -- not digits of the number, not the result of a UTF-8 "
+    "decoder over the bytes (value flow on symbolic terms). "
+    "NOT decided: the remaining text written to stdout (padding, order of the pieces)."
 )
 
 DOC = {"int_13": {0x0A, 0x13}, "int_21": {0x01, 0x02, 0x0A}}
